@@ -42,13 +42,13 @@ type BatchLog struct {
 	Epoch     int16   `json:"epoch"`
 	First     int32   `json:"first"`
 	IDs       []int64 `json:"ids"`
-	Applied   bool    `json:"applied"`           // the rules were evaluated (the request reached the log layer)
-	Verdict   int     `json:"verdict"`           // -1 not applied, 0 appended, 1 duplicate of a cached batch, 2 out of order, 3 fenced
-	Base      int64   `json:"base"`              // base offset for verdict 0/1
-	Code      int16   `json:"code"`              // answered error code (meaningful when Answered)
-	AnsBase   int64   `json:"ansbase"`           // answered base offset (-1 none)
-	Answered  bool    `json:"answered"`          // a block for the partition was in the response
-	Fault     string  `json:"fault,omitempty"`   // per-partition fault applied
+	Applied   bool    `json:"applied"`         // the rules were evaluated (the request reached the log layer)
+	Verdict   int     `json:"verdict"`         // -1 not applied, 0 appended, 1 duplicate of a cached batch, 2 out of order, 3 fenced
+	Base      int64   `json:"base"`            // base offset for verdict 0/1
+	Code      int16   `json:"code"`            // answered error code (meaningful when Answered)
+	AnsBase   int64   `json:"ansbase"`         // answered base offset (-1 none)
+	Answered  bool    `json:"answered"`        // a block for the partition was in the response
+	Fault     string  `json:"fault,omitempty"` // per-partition fault applied
 	FaultErr  int16   `json:"faulterr,omitempty"`
 	IsBatch   bool    `json:"isbatch,omitempty"` // v2 record batch
 }
